@@ -489,6 +489,10 @@ def pinned_labels_part(rep):
 
 
 def run(tier, seed, rep):
+    # histories of public API calls and device changes on one object; the poll that follows each history is judged
+    from .. import api_sessions
+    _api = api_sessions.explore(tier, seed, {'C13'})
+    rep.add_many([v for v in _api['violations'] if v['prop'] == 'C13'])
     nl = pinned_labels_part(rep)
     tabs = all_tables()
     full = tier == 'thorough'
@@ -512,7 +516,7 @@ def run(tier, seed, rep):
         napi += n
         rep.add_many(res)
     total += napi
-    cov = dict(evaluations=total + nl, api_results_checked=napi, api_configurations=len(acfgs), distinct_nontrivial=total, pinned_label_tables_compared=nl,
+    cov = dict(api_session_histories=_api['histories'], api_session_states=_api['states'], evaluations=total + nl, api_results_checked=napi, api_configurations=len(acfgs), distinct_nontrivial=total, pinned_label_tables_compared=nl,
                rule='every (code, label) pair discovered structurally in every table: all 65536 code words (all 256 x other '
                     'half for one-byte codes); 4-byte bitmaps: all 65536 values of each half x other half in '
                     '{0,0xFFFF,0x8001}; two-word bitmaps: all 65536 values of each word x the other in {0,1,0x8000,0xFFFF}; '
@@ -529,6 +533,11 @@ def run(tier, seed, rep):
 
 
 def replay(r):
+    if r.get('part') == 'api-session':
+        from .. import api_sessions
+        out = api_sessions.replay(r)
+        out['violations'] = [m for m in out['violations'] if m[0] == 'C13']
+        return out
     if r['kind'] == 'labels':
         from ..findings import Report
         rp = Report('C13')
